@@ -368,7 +368,8 @@ def cases(tier):
     for conv in ('shoc_standard', 'cf1d'):
         yield Case(f'large:{conv}:101x11', body_large, dict(conv=conv), patches=_large_patches(), max_paths=5)
     for mesh in (['tqp'] if q else ['tqp', 'fan', 'tq']):
-        for mo in (dict(), dict(start_index=1, fill='attr' if mesh in ('tqp', 'tq') else 'none', supply=('edge_node',))):
+        for mo in (dict(), dict(start_index=1, fill='attr' if mesh in ('tqp', 'tq') else 'none', supply=('edge_node',)),
+                   dict(start_index=0, start_index_as_text=True), dict(start_index=1, fill='nan', start_index_as_text=True)):
             tag = '+'.join(f'{k}={v}' for k, v in mo.items()) or 'default'
             yield Case(f'ugrid:{mesh}:{tag}', body, dict(conv='ugrid', shape=mesh, bounds='none', mesh_opts=mo), patches=_patches(), max_paths=100)
 
